@@ -476,6 +476,7 @@ class EndpointResponseHandlerGenerator:
                             if self._should_use_cattrs_structure(response_type):
                                 deserialization_code = self._get_cattrs_deserialization_code(response_type, data_expr)
                                 writer.write_line(f"return {deserialization_code}")
+                                self._register_cattrs_import(context)
                                 self._register_imports_for_type(response_type, context)
                             else:
                                 context.add_import("typing", "cast")
